@@ -140,17 +140,11 @@ def gen_history(rng, nops, wild):
             m = rng.pick(live)
             h.ops.append(("upd", [(m, gen_content(rng, m, pool, wild)[0]), (m, gen_content(rng, m, pool, wild)[0])]))
         elif op == "rename":
-            if wild:
-                a = rng.pick(pool); b = rng.pick(pool)
-                pairs = [(a, b)]
-                if rng.chance(1, 5):
-                    pairs.append((b, rng.pick(pool)))
-            else:
-                # clean regime: only moves that cannot trigger C10-F1 (no class/interface in the moved text)
-                cands = [m for m in pool if m not in files or not has_toplevel(files[m])]
-                if not cands:
-                    continue
-                pairs = [(rng.pick(cands), rng.pick(pool))]
+            a = rng.pick(live) if live and rng.chance(4, 5) else rng.pick(pool)
+            b = rng.pick(pool)
+            pairs = [(a, b)]
+            if rng.chance(1, 5):        # chained / colliding renames in one batch
+                pairs.append((rng.pick([a, b]), rng.pick(pool)))
             h.ops.append(("ren", pairs))
         elif op == "remove" and live:
             ms = [rng.pick(live)] + ([rng.pick(pool)] if rng.chance(1, 4) else [])
@@ -169,16 +163,18 @@ def apply_fs(files, op):
     """This file's own view of the file system (independent of the server and of the model)."""
     k, v = op
     if k == "upd":
-        for m, t in v:
-            files[m] = t
+        for m, t in v:          # last write of a batch wins; ROOT (the builtin module) is not a file
+            if m != ROOT:
+                files[m] = t
     elif k == "ren":
         for a, b in v:
-            if a in files:
+            if a != ROOT and b != ROOT and a in files:
                 t = files.pop(a)
                 files[b] = t
     else:
         for m in v:
-            files.pop(m, None)
+            if m != ROOT:
+                files.pop(m, None)
 
 
 # ----------------------------------------------------------------------------------------------
@@ -403,34 +399,8 @@ def run_hists(tb, hists, with_model=True):
 # known findings (signatures are predicates over the shrunk witness)
 
 def classify(tb, h):
-    """Which open-finding signature a (shrunk) failing history matches, else None."""
-    files = dict(h.init)
-    texts = list(h.init.values())
-    eff_rename = False
-    dup = False
-    root = ROOT in h.init
-    for op in h.ops:
-        k, v = op
-        if k == "upd":
-            texts += [t for _, t in v]
-            ms = [m for m, _ in v]
-            dup = dup or len(set(ms)) < len(ms)
-            root = root or ROOT in ms
-        elif k == "ren":
-            for a, b in v:
-                root = root or ROOT in (a, b)
-                if a in files and a != b and has_toplevel(files[a]):
-                    eff_rename = True
-        else:
-            root = root or ROOT in v
-        apply_fs(files, op)
-    perr = any(tb.facts.get(tb.cid.get(t, -1), ([], 0))[1] > 0 for t in texts)
-    if root:
-        return "C10-F3"
-    if eff_rename:
-        return "C10-F1"
-    if perr:
-        return "C10-F2"
+    """Which open-finding signature a (shrunk) failing history matches.  C10-F1..F3 are fixed
+    (findings/C10.json): nothing is matched any more, every oracle failure is a VIOLATION."""
     return None
 
 
@@ -456,7 +426,7 @@ def find_oracle_failure(ctx, tb, label):
     with the shrunk concrete history if one is found that matches no open finding."""
     rng = ctx.rng.fork()
     for _ in range(ctx.scale(4, 20)):
-        hs = [gen_history(rng.fork(), rng.range(2, 10), False) for _ in range(150)]
+        hs = [gen_history(rng.fork(), rng.range(2, 10), rng.chance(1, 2)) for _ in range(150)]
         for h, (orc, _) in zip(hs, run_hists(tb, hs, with_model=False)):
             if orc and classify(tb, h) is None:
                 small = shrink(tb, h, lambda g: bool(run_hists(tb, [g], with_model=False)[0][0]))
@@ -500,25 +470,11 @@ def handle_failure(ctx, tb, h, orc, tie, label):
 
 
 # ----------------------------------------------------------------------------------------------
-# probes for the open findings (inline replays)
+# (the witnesses of the fixed findings C10-F1..F3 are regression inputs under corpus/C10/f*.json)
 
-A_TXT = "class A(val v: int) { function mk(): A = A.init(0) method get(): int = this.v }"
 
 def probe_hist(fid):
-    h = Hist("probe:" + fid)
-    if fid == "C10-F1":
-        h.init = {"OldA": A_TXT, "B": "import { A } from NewA\nclass B { function f(): int = A.mk().get() function g(): A = A.init(3) }"}
-        h.ops = [("ren", [("OldA", "NewA")])]
-    elif fid == "C10-F2":
-        h.init = {"A": A_TXT, "B": "import { A } from A\nclass B { function f(): int = A.mk().get() function h(): int = }"}
-        h.ops = [("upd", [("A", A_TXT)])]
-    elif fid == "C10-F3":
-        u = "class U { function f(): Str = \"a\" function p(): unit = Process.println(\"x\") }"
-        h.init = {"U": u}
-        h.ops = [("rem", [ROOT]), ("upd", [("U", u)])]
-    else:
-        return None
-    return h
+    return None
 
 
 def run(ctx):
@@ -585,22 +541,39 @@ def run(ctx):
         g = key.split("/", 2)[2]
         ents = [x.split(">", 1) for x in g.split(";") if x]
         return all((k == ROOT and v == "!") or (k != ROOT and v.split("~")[0] == k) for k, v in ents) and any(k == ROOT for k, _ in ents)
-    # The Lean hypothesis `Local` (no error located outside the checked module) is too strong for the real
-    # checker: checking `interface A : E` re-reports E's own supertype error at E's location.  What is
-    # checked here is the weaker fact that makes set-valued diagnostics insensitive to it: every
-    # foreign-located error of a call against a from-scratch signature is also reported by the owner
-    # module's own call against the same signature.
-    foreign, nforeign = [], 0
+    # Hypothesis `LocalW` of incremental_refines_fresh, dynamically: every error that a call against a
+    # from-scratch signature reports into ANOTHER module k (the real checker does: `interface A : E`
+    # re-reports E's supertype error at E's location) must (1) have k in the forward import closure of
+    # the checked module and (2) be reported by k's own check against the same signature.
+    # Hypothesis `Kinds`: no type_check_module call reports an InvalidSyntax error (token prefix SYN).
+    foreign, nforeign, synbad = [], 0, []
     for key, v in list(tb.tab.items()):
-        if v == "-" or not fresh_shaped(key):
+        if v == "-":
+            continue
+        if "SYN" in v:
+            synbad.append([key, v])
+        if not fresh_shaped(key):
             continue
         m, cid, g = key.split("/", 2)
         G = dict(x.split(">", 1) for x in g.split(";") if x)
+        closure = None
         for x in v.split(","):
             k, t = x.split(":")
             if k == m:
                 continue
             nforeign += 1
+            if closure is None:
+                closure, stack = set(), list(tb.facts.get(int(cid), ([], 0))[0])
+                while stack:
+                    y = stack.pop()
+                    if y in closure:
+                        continue
+                    closure.add(y)
+                    sgy = G.get(y)
+                    if sgy and sgy != "!":
+                        stack += tb.facts.get(int(sgy.split("~")[1]), ([], 0))[0]
+            if k not in closure:
+                foreign.append([key, x, "error located outside the forward import closure"]); continue
             sg = G.get(k)
             if not sg or sg == "!":
                 foreign.append([key, x, "owner is not a source"]); continue
@@ -612,19 +585,24 @@ def run(ctx):
             if x not in tb.tab[okey].split(","):
                 foreign.append([key, x, "owner's own check does not report it: " + tb.tab[okey]])
     if foreign:
-        ctx.violation("locality assumption broken: type_check_module reported an error located in another module that "
-                      "the owner module's own check does not report (whole-entry overwriting in recheck() is then unsound)",
-                      {"calls": foreign[:3], "broken": "hypothesis Local / duplicate-foreign-error assumption (Props/C10.lean, vlib/c10.py)"}, no_input=True)
+        ctx.violation("hypothesis LocalW of incremental_refines_fresh is false for the real checker: type_check_module reported "
+                      "an error into another module that is outside the import closure or that the owner's own check does "
+                      "not report (whole-entry overwriting in recheck() is then unsound)",
+                      {"calls": foreign[:3], "broken": "hypothesis LocalW (Lemmas/Incremental.lean, Props/C10.lean)"}, no_input=True)
+    if synbad:
+        ctx.violation("hypothesis Kinds of incremental_refines_fresh is false for the real checker: type_check_module reported an "
+                      "InvalidSyntax error (recheck() would carry it over as if the parser had produced it)",
+                      {"calls": synbad[:3], "broken": "hypothesis Kinds (Lemmas/Incremental.lean)"}, no_input=True)
     frame_bad = check_frame(tb)
     if frame_bad:
-        ctx.violation("frame hypothesis of incremental_refines_fresh_partial is false for the real checker: two global "
+        ctx.violation("frame hypothesis of incremental_refines_fresh is false for the real checker: two global "
                       "signatures that agree on the module's forward import closure give different diagnostics",
                       {"calls": frame_bad, "broken": "hypothesis Frame (Props/C10.lean)"}, no_input=True)
     ctx.cov.update({
         "evaluations": stats["histories"], "distinct_nontrivial": stats["nontrivial"],
         "rule": "random histories (2..12 ops: single/batch update, create, rename, remove, remove-missing, revert) over <= 6 "
                 "module names with cyclic/missing/self imports; contents from 12 valid/ill-typed templates (+2 unparsable, "
-                "ROOT operands, duplicate batches, class-moving renames in the 30% 'wild' stream); non-trivial = distinct "
+                "ROOT operands, duplicate batches in the 30% 'wild' stream; renames of any module, chained/colliding renames in both); non-trivial = distinct "
                 "history with >= 2 initial files, >= 2 ops and at least one import edge",
         "samples": samples, "traces_validated_against_impl": stats["histories"],
         "ops_executed": stats["ops"], "op_histogram": stats["op_kinds"],
@@ -633,15 +611,15 @@ def run(ctx):
         "frame_hypothesis_pairs_checked": getattr(tb, "frame_pairs", 0),
         "histories_matching_known_findings": stats["oracle_known"],
         "foreign_located_errors_seen": nforeign,
-        "pending": ["incremental_refines_fresh_partial under the weaker locality hypothesis the real checker satisfies "
-                    "(foreign-located errors duplicate the owner's own errors and lie in the forward closure) instead of `Local`",
-                    "rename after a fix of C10-F1 (then SigIndep can be dropped)"],
-        "partial_theorems": {"incremental_refines_fresh_partial": "no ROOT operand; every content parses without error; "
-                             "no rename, or signatures independent of the module name; checker local + frame hypothesis"},
+        "pending": ["hook for DependencyGraph::affected_set (exact comparison of the recheck set; today it is tied through its effects on diagnostics)",
+                    "checked_modules / GC interplay (property C11)"],
+        "partial_theorems": {},
     })
     ctx.assumptions += [
         "frame hypothesis: type_check_module(m, c, G) depends only on G restricted to ROOT and the forward import closure of m (checked dynamically on all evaluated calls)",
-        "locality: the theorem assumes `Local` (type_check_module(m, .., fresh G) only reports errors located in m); the real checker re-reports supertype errors of imported interfaces at their own location, so what is checked dynamically on every evaluated call is the weaker fact that each foreign-located error is also reported by the owner module's own check (diagnostics are sets, so such duplicates are invisible)",
+        "weak locality (LocalW): an error that type_check_module(m, .., fresh G) reports into another module k has k in the forward import closure of m and is also reported by k's own check (checked dynamically on all such evaluated calls)",
+        "kinds: only the parser reports InvalidSyntax errors (checked dynamically on all evaluated calls)",
+        "ModuleReference::ROOT is the builtin module, not a file: operations naming it are no-ops in the file-system view",
         "diagnostics compared as sets (ErrorSet is a BTreeSet); rendering = to_ide_format",
     ]
     return ctx.finish(res, trusted=common.TRUSTED_COMMON + [
